@@ -52,4 +52,9 @@ PROPS = {
         ],
         "partial": "the round-trip clause ('comparing with the binary round-trip reports nothing') is established by correspondence (rtbytes + same + compare in every case) together with C18_self; a theorem decode(encode o) = o belongs to C07's binary model, which this revision does not contain. The panic of changed_hpo_terms on a dangling parent id is modelled and compared, theorems assume ParentsResolve.",
     },
+    "C16": {
+        "rule": "each fact set (DAG + annotations, one name per id) is built under k random permutations (k = 4 quick, 12 thorough) of the new_term / add_parent / add_*+annotate_* call order into different slots; all dumps must be identical (`same 0 i`, implementation vs implementation) and equal to the model's dump; non-trivial = more than two terms and at least one multi-parent node",
+        "partial": "proved: lookups of terms (name, flags, parents, children, ancestors) and, per kind, the links of every term and the direct terms of every record are equal for permuted fact lists (C16_terms, C16_annotations); record names, record counts and hence information content under permutation, and the binary/text routes, rest on the correspondence check (dumps compared across permutations) and on C07-C09",
+        "assumptions": ["the typestate order (all new_term before all add_parent before connect before annotations) is part of the hypothesis: the Builder API enforces it"],
+    },
 }
